@@ -315,6 +315,32 @@ def run(ctx):
             sd = {"lead0": b"\x00" * z + gen.rbytes(rnd, ln - z), "trail0": gen.rbytes(rnd, ln - z) + b"\x00" * z,
                   "random": gen.rbytes(rnd, ln), "zero": b"\x00" * ln, "ff": b"\xff" * ln}[kind]
             judge_seed_routes(ctx, {"seed": sd, "tag": kind})
+        # seeds whose BYTES happen to be text: ASCII hex digits (a "brain" seed = hexdigest().encode()), decimal digits,
+        # Base58/Base64 characters, blanks, a UTF-8 sentence, a printed xprv - every byte string of legal length is a seed
+        # and must be used as it is, never re-interpreted
+        for j in range(ctx.scale(96, 8000)):
+            kind = ("texthex", "textHEX", "textdigits", "textb64", "textblank", "textutf8", "textmixedhexblank", "textxprv")[j % 8]
+            ln = rnd.choice([16, 32, 64, 64, 2 * rnd.randrange(8, 33)])
+            if kind == "texthex":
+                sd = gen.rbytes(rnd, ln // 2).hex().encode()
+            elif kind == "textHEX":
+                sd = gen.rbytes(rnd, ln // 2).hex().upper().encode()
+            elif kind == "textdigits":
+                sd = "".join(rnd.choice("0123456789") for _ in range(ln)).encode()
+            elif kind == "textb64":
+                import base64
+                sd = base64.b64encode(gen.rbytes(rnd, ln))[:ln]
+            elif kind == "textblank":
+                sd = bytes(rnd.choice(b" \t\n\r") for _ in range(ln))
+            elif kind == "textutf8":
+                sd = ("correct horse battery staple \u00e9\u4e2d " * 4).encode()[:ln]
+            elif kind == "textmixedhexblank":
+                h_ = gen.rbytes(rnd, ln // 2 - 2).hex()
+                sd = (" " + h_[:10] + " " + h_[10:] + "\n ").encode()
+            else:
+                sd = rb32.master(gen.rbytes(rnd, 32)).xprv(rb32.version_for("prv", False, 44)).encode()[:64]
+            judge_seed_routes(ctx, {"seed": sd, "tag": kind})
+            judge_master(ctx, {"seed": sd})
         for j in range(ctx.scale(64, 6000)):
             ptag, p = gen_text(rnd, "pass")
             judge_constructors(ctx, {"entropy": gen.rbytes(rnd, rnd.choice([16, 20, 24, 28, 32])), "passphrase": p,
